@@ -545,10 +545,16 @@ def expand_flags(test, fn):
                     if isinstance(n, ast.Assign) and len(n.targets) == 1 and x is n.targets[0]:
                         single[x.id] = n.value
     params = {a.arg for a in fn.args.args + fn.args.kwonlyargs + fn.args.posonlyargs} if hasattr(fn, "args") else set()
+    # the flag's value is only what the test would compute NOW if nothing it reads can have changed since: every name it reads is never stored in the function
+    # (parameters that are reassigned - `options = GenerationOptions()` after `given = options is not None` - make the flag a record of the PAST)
+    stored = {x_ for x_, c_ in counts.items() if c_ >= 1}
+
+    def stable(v):
+        return not any(isinstance(x, ast.Name) and x.id in stored for x in ast.walk(v))
 
     def go(e, depth=0):
         if isinstance(e, ast.Name) and counts.get(e.id) == 1 and e.id in single and e.id not in params and depth < 4 \
-                and isinstance(single[e.id], (ast.Compare, ast.BoolOp, ast.UnaryOp, ast.Call)):
+                and isinstance(single[e.id], (ast.Compare, ast.BoolOp, ast.UnaryOp, ast.Call)) and stable(single[e.id]):
             return go(single[e.id], depth + 1)
         if isinstance(e, ast.BoolOp):
             return ast.BoolOp(op=e.op, values=[go(v, depth) for v in e.values])
